@@ -27,6 +27,8 @@ func c08Alphabet() []areq {
 		R(wire.Trenameat, u(1), "g", u(1), "h"), R(wire.Trenameat, u(1), "b", u(0), "bb"), R(wire.Trenameat, u(0), "a", u(0), "z"), R(wire.Trenameat, u(1), "g", u(1), "b"),
 		R(wire.Trenameat, u(0), "f", u(1), "g"), R(wire.Trenameat, u(0), "d", u(1), "b"), R(wire.Trenameat, u(1), "h", u(1), "g"), R(wire.Trenameat, u(0), "d", u(1), "dd"),
 		R(wire.Trenameat, u(3), "f", u(0), "top"), R(wire.Trenameat, u(0), "bb", u(1), "b"),
+		// renamed onto itself, through one fid and through two fids on one directory (fid 4 may be a second fid on "a")
+		R(wire.Trenameat, u(1), "g", u(1), "g"), R(wire.Trenameat, u(1), "g", u(4), "g"), R(wire.Trenameat, u(4), "b", u(1), "b"), R(wire.Trename, u(2), u(3), "f"),
 		R(wire.Trename, u(2), u(0), "moved"), R(wire.Trename, u(3), u(1), "r3"), R(wire.Trename, u(4), u(0), "r4"), R(wire.Trename, u(1), u(0), "a2"),
 		R(wire.Tunlinkat, u(1), "g", u(0)), R(wire.Tunlinkat, u(1), "b", u(0)), R(wire.Tunlinkat, u(0), "f", u(0)), R(wire.Tunlinkat, u(3), "f", u(0)), R(wire.Tunlinkat, u(0), "d", u(0)),
 		R(wire.Tremove, u(2)), R(wire.Tremove, u(3)), R(wire.Tremove, u(4)),
